@@ -679,10 +679,8 @@ func (k Keeper) ValidateUnjailMessage(ctx sdk.Ctx, msg types.MsgUnjail) (addr sd
 	if !found {
 		return nil, types.ErrNoValidatorForAddress(k.Codespace())
 	}
-	if info.JailedUntil.After(time.Now()) {
-		return nil, types.ErrValidatorJailed(k.Codespace())
-	}
-	// cannot be unjailed until out of jail
+	// cannot be unjailed until out of jail; judged in block time only, because the local wall
+	// clock differs between nodes and between the first execution and a later re-sync of a block
 	if ctx.BlockHeader().Time.Before(info.JailedUntil) {
 		return nil, types.ErrValidatorJailed(k.Codespace())
 	}
